@@ -28,7 +28,7 @@ func init() {
 			"Rejection oracle: every listed corruption must return an error. Lifecycle part: up to 4 requests of one type outstanding at once, created and finalized (garbage, bit-flipped and honest responses, evaluated from the wire bytes captured at creation) in seeded interleavings; every honest finalization must succeed with the token of its own request. distinct_nontrivial = distinct (type, corruption class, state, position) keys",
 		// (the rejected_by_* classes are recognised from error texts and therefore only reported, not required)
 		Floors: []string{"accepted_valid",
-			"type1_bitflips", "type2_bitflips", "type3_bitflips", "type5_bitflips", "cross_pair_rejected", "type5_drop_rejected", "type5_dup_rejected", "type5_swap_rejected", "type5_valid_proof_prefix_rejected", "type5_valid_proof_permuted_rejected", "lifecycle_sequences", "lifecycle_honest_finalized", "odd_salt_lengths", "client_object_reused_across_keys"},
+			"type1_bitflips", "type2_bitflips", "type3_bitflips", "type5_bitflips", "cross_pair_rejected", "type5_drop_rejected", "type5_dup_rejected", "type5_swap_rejected", "type5_valid_proof_prefix_rejected", "type5_valid_proof_permuted_rejected", "type5_undecodable_element_rejected", "lifecycle_sequences", "lifecycle_honest_finalized", "lifecycle_decryptable_wrong_signature", "odd_salt_lengths", "client_object_reused_across_keys"},
 		Assumptions: []string{"single-bit flips change the mathematical response (argued in DESIGN.md C02); nonces in a batch are distinct so swaps are never of equal elements"},
 		Run:         runC02,
 	})
@@ -216,6 +216,8 @@ func runC02(c *core.Ctx) {
 	// p5mal[i](idx) is what a MALICIOUS holder of the issuer key answers: the honest evaluation, with a valid batch
 	// proof, of the list made of the request's blinded elements idx[0], idx[1], ...
 	var p5mal []func(idx []int) ([]byte, error)
+	// p5forge[i](badAt, bad, wrongOthers): a forged response with an undecodable element (see c02forge.go), or nil
+	var p5forge []func(r *core.Rand, badAt int, bad []byte, wrongOthers bool) []byte
 	{
 		keys := []*oprf.PrivateKey{VOPRFKey(oprf.SuiteRistretto255, setup.Bytes(32)), VOPRFKey(oprf.SuiteRistretto255, setup.Bytes(32))}
 		sizes := []int{1, 2, 3, 5, 2, 3, 4, 8, 3, 2, 6, 3}
@@ -250,6 +252,9 @@ func runC02(c *core.Ctx) {
 			p5n = append(p5n, nb)
 			blindedReq := st.Request().BlindedReq
 			reqKeyID := st.Request().TokenKeyID
+			p5forge = append(p5forge, func(r *core.Rand, badAt int, bad []byte, wrongOthers bool) []byte {
+				return forgeType5Response(r, key, blindedReq, badAt, bad, wrongOthers)
+			})
 			p5mal = append(p5mal, func(idx []int) ([]byte, error) {
 				var list [][]byte
 				for _, j := range idx {
@@ -425,6 +430,24 @@ func runC02(c *core.Ctx) {
 			}
 			try(append(append([]int{}, all...), 0), "extended-by-first", "type5_valid_proof_permuted_rejected")
 		}
+		// an element that is not a group-element encoding, in every slot, with (a) the honest proof and (b) a proof a
+		// malicious key holder forges with the verifier's own arithmetic on what the decoder leaves behind
+		for slot := 0; slot < nb; slot++ {
+			for _, badEnc := range ristrettoInvalidEncodings(r) {
+				es := append([][]byte{}, elems...)
+				es[slot] = badEnc
+				c02Call(c, p.st, build(es, proof), fmt.Sprintf("undecodable-element#%d", slot), true)
+				c.Class("type5_undecodable_element_rejected")
+				for _, wrongOthers := range []bool{false, true} {
+					if f := p5forge[i](r, slot, badEnc, wrongOthers); f != nil {
+						c02Call(c, p.st, f, fmt.Sprintf("undecodable-element-with-forged-proof#%d", slot), true)
+						c.Class("type5_forged_proofs_submitted")
+					} else {
+						c.Class("type5_no_forgery_possible")
+					}
+				}
+			}
+		}
 		// non-minimal varint prefix with the honest content: same mathematical response, accepted or rejected both fine;
 		// only the universal oracle applies
 		body := bytes.Join(elems, nil)
@@ -467,6 +490,8 @@ func splitType5Response(resp []byte, n int) (prefix []byte, elems [][]byte, proo
 type lcReq struct {
 	st   *c02State
 	eval func() ([]byte, error)
+	// decryptableBad (type 3): a response that decrypts under this request's key but carries a wrong blind signature
+	decryptableBad func(r *core.Rand) []byte
 }
 
 func c02Lifecycle(c *core.Ctx) {
@@ -475,7 +500,9 @@ func c02Lifecycle(c *core.Ctx) {
 	curve := elliptic.P384()
 	k1 := VOPRFKey(oprf.SuiteP384, setup.Bytes(32))
 	k5 := VOPRFKey(oprf.SuiteRistretto255, setup.Bytes(32))
-	iss3 := type3.NewRateLimitedIssuer(rk[2])
+	seed3 := setup.Bytes(32)
+	iss3, err3 := type3.VerifNewRateLimitedIssuerWithNameKey(type3.NewRateLimitedIssuer(rk[2]), seed3)
+	must(err3)
 	iss3.AddOrigin("origin.example")
 	factories := map[string]func(r *core.Rand) *lcReq{
 		"type1": func(r *core.Rand) *lcReq {
@@ -504,7 +531,7 @@ func c02Lifecycle(c *core.Ctx) {
 						return nil, fmt.Errorf("undecodable")
 					}
 					return iss.Evaluate(q)
-				}}
+				}, nil}
 		},
 		"type2": func(r *core.Rand) *lcReq {
 			key := rk[0]
@@ -528,7 +555,7 @@ func c02Lifecycle(c *core.Ctx) {
 						return nil, fmt.Errorf("undecodable")
 					}
 					return iss.Evaluate(q)
-				}}
+				}, nil}
 		},
 		"type5": func(r *core.Rand) *lcReq {
 			iss := type5.NewBatchedPrivateIssuer(k5)
@@ -557,7 +584,7 @@ func c02Lifecycle(c *core.Ctx) {
 						return nil, fmt.Errorf("undecodable")
 					}
 					return iss.Evaluate(q)
-				}}
+				}, nil}
 		},
 		"type3": func(r *core.Rand) *lcReq {
 			key := rk[2]
@@ -578,6 +605,21 @@ func c02Lifecycle(c *core.Ctx) {
 				func() ([]byte, error) {
 					resp, _, err := iss3.Evaluate(clone(wire))
 					return resp, err
+				},
+				func(r *core.Rand) []byte {
+					sealer, err := newT3ResponseSealer(seed3, wire)
+					if err != nil {
+						return nil
+					}
+					payload := r.Bytes(256)
+					if r.Coin(2) {
+						if resp, _, err := iss3.Evaluate(clone(wire)); err == nil {
+							if good, err := sealer.open(resp); err == nil {
+								payload = flipBit(good, r.IntN(len(good)*8))
+							}
+						}
+					}
+					return sealer.seal(r.Bytes(16), payload)
 				}}
 		},
 	}
@@ -593,7 +635,7 @@ func c02Lifecycle(c *core.Ctx) {
 			var script []string
 			steps := 6 + r.IntN(10)
 			for s := 0; s < steps; s++ {
-				op := r.IntN(4)
+				op := r.IntN(5)
 				if len(live) == 0 || (op == 0 && len(live) < 4) {
 					q := mk(r)
 					q.st.label = fmt.Sprintf("%s#%d", q.st.label, len(live))
@@ -603,6 +645,17 @@ func c02Lifecycle(c *core.Ctx) {
 				}
 				q := live[r.IntN(len(live))]
 				switch op {
+				case 4: // a response that decrypts but carries a wrong blind signature (type 3), else garbage
+					if q.decryptableBad != nil {
+						if b := q.decryptableBad(r); b != nil {
+							script = append(script, "finalize-decryptable-but-wrong "+q.st.label)
+							c02Call(c, q.st, b, "lifecycle:decryptable-wrong-signature", true)
+							c.Class("lifecycle_decryptable_wrong_signature")
+							continue
+						}
+					}
+					script = append(script, "finalize-garbage "+q.st.label)
+					c02Call(c, q.st, r.Bytes(r.Of(0, 5, 97, 145, 256, 288)), "lifecycle:garbage", true)
 				case 1: // garbage response
 					script = append(script, "finalize-garbage "+q.st.label)
 					c02Call(c, q.st, r.Bytes(r.Of(0, 5, 97, 145, 256, 288)), "lifecycle:garbage", true)
